@@ -105,6 +105,7 @@ Definition eq_values (a b : value) : bool :=
   | VArr _, VArr _ => value_eqb a b
   | VObj _, VObj _ => value_eqb a b
   | VNull, VNull => true
+  | VFun (CBuiltin n1), VFun (CBuiltin n2) => seqb n1 n2   (* one object per built-in *)
   | _, _ => false
   end.
 
@@ -116,8 +117,14 @@ Definition lt_values (a b : value) : option bool :=
   | _, _ => None
   end.
 
+(* `in` wraps its right operand in a slice; a function held in that slice is no longer the
+   identical reflect.Value, so functions are never members (the property does not define
+   equality of functions) *)
 Definition in_values (a : value) (b : value) : bool :=
-  existsb (eq_values a) (arrayify (Some b)).
+  match a with
+  | VFun _ => false
+  | _ => existsb (eq_values a) (arrayify (Some b))
+  end.
 
 (* ---- numeric operators ---- *)
 Definition num_apply (op : numop) (x y : f64) : f64 :=
